@@ -279,6 +279,7 @@ private:
     bool stalling = false;
     bool dead = false;      // fd closed on our side
     bool rawDrain = false;  // TLS layer failed/abandoned: only watch for the client's close
+    bool cmdSent = false;   // the sticky send command has been executed on this connection
   };
 
   void markClosed(Conn &c, int how)
@@ -396,24 +397,26 @@ private:
     std::vector<pollfd> pf;
     while (!_stopped.load())
     {
-      if (int how = _closeAllReq.exchange(0))
+      // both commands are sticky: a connection that is still in the accept queue when the command
+      // is given gets the same treatment as soon as it has been accepted
+      if (int how = _closeAllReq.load())
         for (auto &c : _conns) if (!c->dead) markClosed(*c, how == 2 ? 3 : 4);
-      if (_sendPending.exchange(false))
+      if (_sendPending.load())
       {
         std::string bytes;
         { std::lock_guard<std::mutex> g(_m); bytes = _sendReq; }
         for (auto &c : _conns)
-          if (!c->dead)
+          if (!c->dead && !c->cmdSent)
           {
-            if (c->ssl && c->info.hs == 1) SSL_write(c->ssl, bytes.data(), int(bytes.size()));
-            else if (!tkTls(_kind)) ::send(c->fd, bytes.data(), bytes.size(), MSG_NOSIGNAL | MSG_DONTWAIT);
+            if (c->ssl && c->info.hs == 1) { SSL_write(c->ssl, bytes.data(), int(bytes.size())); c->cmdSent = true; }
+            else if (!tkTls(_kind)) { ::send(c->fd, bytes.data(), bytes.size(), MSG_NOSIGNAL | MSG_DONTWAIT); c->cmdSent = true; }
           }
       }
       pf.clear();
       pf.push_back(pollfd{_lfd, POLLIN, 0});
       size_t n = _conns.size();
       uint64_t now = vf::nowNs();
-      int timeout = _pollMs;
+      int timeout = _pollMs.load();
       for (size_t i = 0; i < n; i++)
       {
         Conn &c = *_conns[i];
@@ -491,7 +494,7 @@ private:
   std::atomic<int> _closeAllReq{0};
   std::atomic<bool> _sendPending{false};
   std::string _sendReq;
-  int _pollMs = 20;
+  std::atomic<int> _pollMs{20};
 };
 
 // ------------------------------------------------------------------------------------ UDP echo peer
